@@ -201,7 +201,15 @@ def minimal(rep, ex: Explorer):
     rep.floor("MCS.minimal paths", n, 4)
 
 
-def loop(rep, ex: Explorer):
+def loop(rep, ex: Explorer, rules=None):
+    rep.only = set(rules) if rules else None
+    try:
+        return _loop(rep, ex)
+    finally:
+        rep.only = None
+
+
+def _loop(rep, ex: Explorer):
     """MCS.loop: no model ⇒ stop; model with empty violated set ⇒ record, stop; else record, block, continue; the
     result is the inclusion-minimal members; the deadline is polled before every solver call."""
     qual = f"{RC2}.minimal_correction_subsets"
